@@ -316,6 +316,17 @@ theorem loader_accepted_font_passes_cursor_tests (font : Font)
   obtain ⟨b, base, collOK, f, pt, P, e, hr, hp⟩ := h font.passes[i] (Array.getElem_mem_toList hi)
   exact loader_accepted_pass_passes_cursor_tests b base collOK f pt P e _ hr hp
 
+/-- **The pipeline never faults on a font the loader model accepted** - `pipeline_never_faults` with its cursor hypothesis discharged:
+for a font each of whose passes carries the rules and the pass constraint that `Pass::readPass` read from some byte string (any bytes, any
+limits), whose rule code stays within the opcodes the model gives a meaning (`fontFull`), with the positioning-pass index and loop limits
+the loader establishes, `shape` returns for every text, fuel and direction. -/
+theorem pipeline_never_faults_on_loaded_fonts (font : Font) (hfull : fontFull font = true)
+    (hloaded : ∀ p ∈ font.passes.toList, ∃ b base collOK f pt P, Loader.readPassAll b base collOK f pt = .ok (.ok P) ∧
+      p.rules = (P.rules.map (Loader.ruleOf b)).toArray ∧ p.pconstraint = Loader.pconstraintOf b P.layout)
+    (hi : font.ipos ≤ font.passes.size) (hL : ∀ k, k < font.passes.size → 1 ≤ (font.passes.getD k default).maxLoop)
+    (text : List Nat) (fuel : Nat) (dir : Nat) : ∃ r, shape font text fuel dir = .ok r :=
+  pipeline_never_faults font hfull (loader_accepted_font_passes_cursor_tests font hloaded) hi hL text fuel dir
+
 /-! non-vacuity: the second pass of `tests/fonts/small.ttf` (bytes [215, 334) of its Silf sub-table; one rule of two slots whose action is
 `copy_next; put_copy 0; …; next; ret_zero`) is accepted by the loader model, and the theorem gives `passOK` of the pass built from it -/
 def smallPass : List Nat := [0, 5, 2, 0, 0, 1, 0, 0, 0, 0, 1, 44, 0, 0, 1, 44, 0, 0, 1, 45, 0, 0, 0, 0, 0, 3, 0, 2, 0, 1, 0, 2, 0, 2, 0, 2, 0, 1, 0, 0, 0, 3, 0, 3, 0, 0, 0, 5, 0, 5, 0, 1, 0, 0, 0, 1, 0, 0, 0, 0, 0, 0, 0, 2, 0, 10, 0, 0, 0, 0, 0, 1, 0, 0, 0, 33, 0, 1, 0, 0, 0, 0, 0, 2, 0, 0, 27, 30, 0, 1, 255, 38, 2, 1, 0, 35, 17, 41, 6, 0, 35, 8, 41, 7, 0, 35, 9, 44, 6, 0, 35, 3, 44, 7, 0, 35, 4, 25, 49]
